@@ -35,11 +35,20 @@ func valueFieldByName(v reflect.Value, fields []string) (out reflect.Value, ok b
 		} else {
 			out = out.Elem()
 		}
+		// the path ends on the pointer field itself
+		if len(fields) == 1 {
+			return out, out.IsValid()
+		}
 		return valueFieldByName(out, fields[1:])
 	}
 
 	if out.Kind() == reflect.Struct && len(fields) > 1 {
 		return valueFieldByName(out, fields[1:])
+	}
+
+	// the path goes deeper than the structure does
+	if len(fields) > 1 {
+		return out, false
 	}
 
 	return out, out.IsValid()
